@@ -24,7 +24,7 @@ RULE = ('cases: seeded histories of <=60 ops (join, leave, re-join, attach, deta
         'type, a re-join, and an empty-listing answer; distinct by (class, op trace) signature.')
 ASSUMPTIONS = ['component classes use identity equality; each component instance belongs to one agent',
                'PositionComponent managed by spatial worlds is outside the claim', 'F1/F2/F3/F6 are known findings (not repaired)']
-FLOORS = {'quick': {'operations_after_which_nobody_looked': 5211, 'direct_reads_of_the_pools_attribute': 59993, 'cases_in_mode_optimised': 141, 'redundant_registration_refused_in_a_copy': 649, 'deep_copied_models': 213, 'timesteps_cut_short_after_in_step_population_changes': 15, 'rejected_reg_listed': 224, 'rejected_dereg_offline': 311, 'rejected_dereg_new': 604, 'rejected_explicit_calls': 1273, 'listing_comparisons': 20000, 'classA_histories': 381, 'joins': 3000, 'leaves': 1500, 'rejoins': 500,
+FLOORS = {'quick': {'worlds_handed_from_one_model_to_the_next': 40, 'operations_after_which_nobody_looked': 5211, 'direct_reads_of_the_pools_attribute': 59993, 'cases_in_mode_optimised': 141, 'redundant_registration_refused_in_a_copy': 649, 'deep_copied_models': 213, 'timesteps_cut_short_after_in_step_population_changes': 15, 'rejected_reg_listed': 224, 'rejected_dereg_offline': 311, 'rejected_dereg_new': 604, 'rejected_explicit_calls': 1273, 'listing_comparisons': 20000, 'classA_histories': 381, 'joins': 3000, 'leaves': 1500, 'rejoins': 500,
                     'empty_answers': 3000, 'leave_shared_type': 500, 'strict_keyerror': 1000, 'migrations': 300, 'big_populations': 8, 'in_step_leaves_observed': 30, 'explicit_reregistration_rejected': 6, 'refused_offmap_joins': 200, 'models_completed_mid_history': 150, 'populated_world_installed_later': 80,
                     'reach:Core.SystemManager.register_component': 2000, 'reach:Core.SystemManager.deregister_component': 1000},
           'thorough': {'listing_comparisons': 1000000, 'classA_histories': 29000}}
@@ -628,8 +628,65 @@ def case_copy(ctx, case):
     ctx.distinct(('copy', case['i']))
 
 
+def case_rehomed(ctx, case):
+    """A world that is built once and handed from one model to the next (a replication loop that re-uses an expensive grid): agents with
+    components join and leave under the first model, the world is given to a second model (set_model + set_environment / assignment),
+    agents join again: each model lists exactly the components of the agents that are in ITS environment now."""
+    import ECAgent.Core as core
+    import ECAgent.Environments as envs
+    rng = ctx.rng('rehomed', case['i'])
+    K = comp_classes(core)[:4]
+    m1, m2 = core.Model(), core.Model()
+    make = rng.choice([lambda m: core.Environment(m), lambda m: envs.GridWorld(m, 4, 3), lambda m: envs.SpaceWorld(m, 5.0, 5.0), lambda m: envs.LineWorld(m, 6)])
+    world = make(m1)
+    m1.environment = world
+    first = []
+    for j in range(rng.randint(0, 3)):
+        a = core.Agent(f'f{j}', m1)
+        for T in rng.sample(K, rng.randint(0, 2)):
+            a.add_component(T(a, m1))
+        world.add_agent(a)
+        first.append(a)
+    m1.systems[K[0]]
+    leave_before = rng.random() < 0.7
+    if leave_before:
+        for a in first:
+            world.remove_agent(a.id)
+        first = []
+    # hand-over (the old model gets a fresh default environment, as a replication loop would simply drop it)
+    m1.environment = core.Environment(m1)
+    world.set_model(m2)
+    if rng.random() < 0.5:
+        m2.set_environment(world)
+    else:
+        m2.environment = world
+    if first:
+        return                      # (residents carried over to another model: which model lists their components is not the property's business)
+    second = []
+    for j in range(rng.randint(1, 3)):
+        a = core.Agent(f's{j}', m2)
+        for T in rng.sample(K, rng.randint(1, 2)):
+            a.add_component(T(a, m2))
+        world.add_agent(a)
+        second.append(a)
+    ctx.ev()
+    ctx.count('worlds_handed_from_one_model_to_the_next')
+    for T in K:
+        exp = [a[T] for a in second if T in a.components]
+        got2, got1 = m2.systems[T], m1.systems[T]
+        if not ((got2 is None and not exp) or (got2 is not None and same_objects(got2, exp))):
+            raise CaseViolation(f'after a world was handed from one model to another, the new model lists {len(got2 or [])} {T.__name__} components; '
+                                f'{len(exp)} agents in its environment carry one', world=type(world).__name__, old_model_lists=len(got1 or []))
+        check(got1 is None, f'the model that gave its world away still lists {T.__name__} components although its environment is empty',
+              world=type(world).__name__)
+    for a in second:
+        world.remove_agent(a.id)
+    for T in K:
+        check(m2.systems[T] is None and m1.systems[T] is None, 'components stay listed after their agents left the handed-over world')
+
+
 def run_case(ctx, case):
-    {'big': case_big, 'copy': case_copy}.get(case.get('kind'), case_history)(ctx, case)
+    {'big': case_big, 'copy': case_copy, 'rehomed': case_rehomed}.get(case.get('kind'), case_history)(ctx, case)
 
 
 def run(ctx):
@@ -642,6 +699,9 @@ def run(ctx):
     for i in range(N_HIST[ctx.tier] // 20):
         if ctx.mine(i) and not ctx.full():
             ctx.run_case({'kind': 'copy', 'i': i}, run_case)
+    for i in range(N_HIST[ctx.tier] // 10):
+        if ctx.mine(i) and not ctx.full():
+            ctx.run_case({'kind': 'rehomed', 'i': i}, run_case)
 
 
 def replay(ctx, case):
